@@ -1,5 +1,8 @@
 import Driver.Util
 import Driver.BPE
+import Driver.InfoWeight
+import Driver.Distances
+import Driver.Cooc
 import Driver.Tree
 import Driver.Histogram
 import Driver.OT
@@ -18,6 +21,9 @@ namespace Driver
 
 def handlers : List (String → Json → Option (R Json)) := [
   Driver.BPE.handle,
+  Driver.InfoWeight.handle,
+  Driver.Distances.handle,
+  Driver.Cooc.handle,
   Driver.Tree.handle,
   Driver.Histogram.handle,
   Driver.OT.handle,
